@@ -42,6 +42,13 @@ def _strip(c):
     return {k: v for k, v in c.items() if k != "coq"}
 
 
+def _count_events(cases, what):
+    n = 0
+    for c in cases:
+        n += len([e for e in c["history"]["events_before"] if e == what])
+    return n
+
+
 def _routes(cases):
     d = {}
     for c in cases:
@@ -109,6 +116,12 @@ def run(res):
         res.violation("SetupChannel message through the protocol handler: " +
                       "; ".join(x["monitor_violation"] + ["field not carried into the channel: " + m for m in x["mapping_violation"]]),
                       {"domain": "close-run", "seed": res.seed, "entry_point": "ChannelHandler::handle(SetupChannel)", "case": x})
+    # the signer's allowlist against the operator's record (initial + adds - removes, or the last replacement)
+    diverge = [c for c in cases if c["allowlist_diverges"]]
+    if diverge and not mon:
+        c = diverge[0]
+        res.violation("the signer's allowlist differs from the operator's record of it: " + "; ".join(c["allowlist_diverges"][:2]),
+                      {"domain": "close-run", "case": _strip(c)}, has_input=False)
     ledger_bad = [c for c in cases if not c["ledger_matches_state"]]
     for c in ledger_bad[:1]:
         res.violation("the harness's record of accepted commitments differs from the signer's current commitments "
@@ -170,7 +183,12 @@ def run(res):
                 "with right / wrong / empty / over-long path, xpub-derived, foreign allowlisted or not, upfront, empty, 260 "
                 "bytes; phase 1 additionally swapped outputs / paths, 0-3 outputs, path count off by one, version, lock time, "
                 "sequence, outpoint, extra input, script_sig, witness, zero-value and duplicated outputs; the store refusing "
-                "the write in 1 of 14.  Half of the channels are set up by a SetupChannel message and half of the requests travel "
+                "the write in 1 of 14.  The signer is started and restarted the daemon's way (HandlerBuilder with a mostly non-empty "
+                "configured initial allowlist on the same store, HsmdInit, root / channel handler) or by restore_node; the allowlist is "
+                "edited at run time by add / remove / set; in 2 of 5 channels an entry is taken off the list, the signer restarted and "
+                "closes paying the holder there requested.  'Allowlisted' in the model input and in the monitor is the harness's own "
+                "record of the operator's list (initial + adds - removes, or exactly the last replacement; restarts change nothing), "
+                "never the node's answer.  Half of the channels are set up by a SetupChannel message and half of the requests travel "
                 "as SignMutualCloseTx (tx + PSBT whose outputs carry the paths as bip32_derivation or tap_key_origins, own "
                 "unsigned tx resized / perturbed, arbitrary remote_funding_key and scripts) or SignMutualCloseTx2 messages, encoded "
                 "with as_vec, decoded with from_vec and handled by the ChannelHandler at protocol 4/5/6; the model request and "
@@ -193,6 +211,11 @@ def run(res):
                                    "with_upfront_script": len([x for x in setups if x["message"]["local_shutdown_script"]]),
                                    "with_upfront_script_accepted": len([x for x in setups if x["message"]["local_shutdown_script"] and x["accepted"]]),
                                    "mapping_or_monitor_failures": len(bad_setups)},
+        "allowlist_divergences": len(diverge),
+        "restarts_in_histories": _count_events(cases, "restart (HandlerBuilder)"),
+        "closes_to_a_script_taken_off_the_allowlist(requests, signed)": [
+            len([c for c in cases if c["intent"]["holder_script"] == "taken-off-the-allowlist"]),
+            len([c for c in cases if c["intent"]["holder_script"] == "taken-off-the-allowlist" and c["channel_code"] == 0])],
         "phase1_signed": len(p1_signed),
         "phase1_signed_by_second_attempt": len(second),
         "wallet_answers(can_spend/allowlisted)": _wallet_dist(cases),
@@ -202,8 +225,9 @@ def run(res):
     res.assumptions = [
         "max_feerate_per_kw < u32::MAX (u32::MAX = no maximum) - a premise of the theorem",
         "BIP-143 digest and ECDSA are parameters of the theorem (every returned signature is verified for real)",
-        "can_spend / allowlist_contains are oracle parameters: the theorem holds for every wallet and allowlist; the "
-        "correspondence records their real answers per request",
+        "can_spend / allowlisted are oracle parameters: the theorem holds for every wallet and allowlist; the "
+        "correspondence records the wallet's real can_spend answers and takes 'allowlisted' from the harness's own record of "
+        "the operator's allowlist",
         "LDK's ClosingTransaction builder and rust-bitcoin's weight are modelled (compared on every run)",
         "sign_closing_transaction of LDK does not fail (modelled as total)",
         "the correspondence is differential testing: bounded by the generator described in coverage.rule",
